@@ -370,6 +370,8 @@ def run(ctx):
     name_mode_same_file_name(ctx, root)
     member_names_probe(ctx, root)
     name_mode_nested_probe(ctx, root)
+    from_dir_probe(ctx, root)
+    data_dir_spelling_probe(ctx, root)
     # the recorded K6 witness
     k6_witness(ctx, root)
 
@@ -444,6 +446,81 @@ def name_mode_nested_probe(ctx, root):
         if len(set(objs)) != 1:
             ctx.fail('two tasks that are the same computation are distinct objects across the member chains', case,
                      {'mode': 'name', 'distinct_objects': len(set(objs)), 'members': len(mains)})
+        b.cleanup_module()
+
+
+def from_dir_probe(ctx, root):
+    """`MultiChain.from_dir(data_dir, dir)`: one member per config file of the directory, filed under the file's name, each the chain of its
+    config with the given keyword arguments (e.g. `global_vars`) — whatever order the directory is listed in"""
+    import pathlib
+    from taskchain import MultiChain
+    for k in range(ctx.n(4, 24)):
+        rng = ctx.rng('from-dir', k)
+        xs = rng.sample([1, 2, 'a', [1], {'k': 2}, None, 0.5, '{V}/p'], 3)
+        spec = {'classes': {'K0': {'name': 'up', 'group': '', 'params': [{'name': 'x'}], 'inputs': [], 'kind': 'json', 'run_args': ['x']},
+                            'K1': {'name': 'down', 'group': '', 'params': [], 'inputs': [{'by': 'class', 'ref': 'K0'}], 'kind': 'json', 'run_args': ['up'],
+                                   'in_kinds': {'up': 'json'}}},
+                'files': {f'runs/r{j}.json': {'tasks': ['K0', 'K1'], 'x': x} for j, x in enumerate(xs)}, 'main': 'runs/r0.json', 'module': gen.fresh_modname()}
+        b = pl.materialize(spec, root / f'fd{k}', modname=spec['module'])
+        b.module()
+        d = b.path('runs/r0.json').parent
+        order = rng.choice(['sorted', 'reverse', 'shuffle'])
+        orig = pathlib.Path.iterdir
+
+        def iterdir(self):
+            files = sorted(orig(self))
+            if self == d:
+                if order == 'reverse':
+                    files.reverse()
+                elif order == 'shuffle':
+                    rng.shuffle(files)
+            return iter(files)
+        case = {'probe': 'MultiChain.from_dir', 'x': xs, 'listing': order}
+        ctx.case(case, nontrivial=True); ctx.count('from-dir-probe')
+        pathlib.Path.iterdir = iterdir
+        try:
+            mc = MultiChain.from_dir(root / f'fdd{k}', d, global_vars={'V': 'v'})
+        except Exception as e:      # noqa
+            ctx.fail('MultiChain.from_dir failed on a directory of config files', case, f'{type(e).__name__}: {e}'[:200]); b.cleanup_module(); continue
+        finally:
+            pathlib.Path.iterdir = orig
+        if sorted(mc.chains) != [f'r{j}' for j in range(len(xs))]:
+            ctx.fail('MultiChain.from_dir does not hold one chain per config file of the directory', case, sorted(mc.chains))
+        else:
+            from taskchain import Config
+            for j in range(len(xs)):
+                st = Config(root / f'fds{k}', d / f'r{j}.json', global_vars={'V': 'v'}).chain()
+                a = {n: (t.name_for_persistence, str(t.params['x']) if 'x' in t.params else None) for n, t in mc[f'r{j}'].tasks.items()}
+                s_ = {n: (t.name_for_persistence, str(t.params['x']) if 'x' in t.params else None) for n, t in st.tasks.items()}
+                if a != s_:
+                    ctx.fail('a member chain of a MultiChain differs from the standalone chain of the same config', case,
+                             {'member': f'r{j}', 'member_chain': a, 'standalone': s_, 'via': 'from_dir'})
+                    break
+        b.cleanup_module()
+
+
+def data_dir_spelling_probe(ctx, root):
+    """members whose configs name ONE data directory in different ways (through a symbolic link, with a trailing `.`) still share identical
+    tasks: one object iff same computation"""
+    from taskchain import MultiChain, Config
+    for k in range(ctx.n(3, 12)):
+        spec = {'classes': {'K0': {'name': 'up', 'group': '', 'params': [{'name': 'x'}], 'inputs': [], 'kind': 'memory' if k % 2 else 'json', 'run_args': ['x']}},
+                'files': {'a.json': {'tasks': ['K0'], 'x': 1}, 'b.json': {'tasks': ['K0'], 'x': 1}}, 'main': 'a.json', 'module': gen.fresh_modname()}
+        b = pl.materialize(spec, root / f'dds{k}', modname=spec['module'])
+        b.module()
+        data = root / f'dds{k}' / 'data'
+        data.mkdir(parents=True, exist_ok=True)
+        link = root / f'dds{k}' / 'data-link'
+        if not link.exists():
+            link.symlink_to(data, target_is_directory=True)
+        other = link if k % 3 else data / '.'
+        case = {'probe': 'one data directory, two spellings', 'second_spelling': 'symlink' if k % 3 else 'trailing dot'}
+        ctx.case(case, nontrivial=True); ctx.count('data-dir-spelling-probe')
+        mc = MultiChain([Config(data, str(b.path('a.json'))), Config(other, str(b.path('b.json')))])
+        t1, t2 = mc['a'].tasks['up'], mc['b'].tasks['up']
+        if t1 is not t2:
+            ctx.fail('two tasks that are the same computation are distinct objects across the member chains', case,
+                     {'keys': [t1.name_for_persistence, t2.name_for_persistence]})
         b.cleanup_module()
 
 
